@@ -5,7 +5,9 @@
    the checker names the violated clause. *)
 From SV Require Import Base.Bytes Model.Isolation.
 
-Inductive iclause := IClCallerMutated | IClSinkRowChanged | IClInstanceInterference.
+(* IClDeliveredAliasesCaller: after the receiver overwrote the row maps it was given, the caller's map
+   (deep snapshot) differs from what it was before Emit: a delivered row IS one of the caller's maps *)
+Inductive iclause := IClCallerMutated | IClSinkRowChanged | IClInstanceInterference | IClDeliveredAliasesCaller.
 
 Definition iso_chk_same (cl : iclause) (a b : bytes) : option iclause :=
   if bytes_eqb a b then None else Some cl.
